@@ -227,6 +227,10 @@ def run(tier, seed):
     t0 = time.time()
     reports = xlate_simd.regenerate(xlate_simd.ISAS, core.REPO, log)
     xlate_validate.write_tables(reports, log)
+    for isa, r in reports.items():
+        if r.get("error"):
+            v.violation("translator-failed " + isa, {"kind": "harness-failure", "detail": r["error"],
+                        "note": "the headers of configuration %s could not be preprocessed / translated; the previous generated file was kept, the theorems are about stale definitions" % isa}, nofail=True)
     # only C08's own modules and the driver: a change that breaks another property's proofs must not alarm here
     ok_all, out = core.lake_build(targets=["FastorModel.Props.%s" % m for m in PROP_MODULES] + ["fmodel"], log=log)
     thms_by_mod = all_theorems()
